@@ -18,6 +18,9 @@ Supported subset
   expressions int/str/bool constants, names, + - * on int, `%` on int (ZeroDivisionError = None), + on str/list, unary - / not,
               comparisons == != < <= > >= (chained), `in` / `not in` on dict, list of str and str, short-circuit and/or,
               `a if c else b`, tuples, f-strings of str/int pieces without format spec, len()
+  specialise  `type(x) is tuple|str|list|...` is decided by the declared type of x; a statically false `if` branch is not translated;
+              `for a, b in zip(xs, list(np.arange(0, n)))`, `range(a, b)`; `break` in a for body (flag carried through the fold);
+              `if s:` on a str; f-string of a list[int]; cfg `dict_effect`: `d[k] = {<fixed entries>, 'value': e}` recorded as (k, e) appended to d
   statements  assignment / augmented assignment to a name, `self.<attr>` or `d[k]`; `x.append(e)`; if/elif/else (the rest of the
               block is duplicated into both branches, so early `return` is fine); `return e`;
               `for x in xs` / `for i, x in enumerate(xs)` -> fold_left over a tuple of the loop-carried variables
@@ -40,7 +43,7 @@ import ast, hashlib, os, re, sys
 VERIF = os.path.dirname(os.path.dirname(os.path.abspath(__file__)))
 REPO = os.environ.get("VERIF_REPO", "/repo")
 GEN = os.path.join(VERIF, "coq", "gen")
-Z, STR, BOOL, DICT, SDICT = ("Z",), ("string",), ("bool",), ("dict",), ("sdict",)
+Z, STR, BOOL, DICT, SDICT, ADICT = ("Z",), ("string",), ("bool",), ("dict",), ("sdict",), ("(list (string * list Z))",)
 def LIST(t): return ["list", t]
 def TUP(*ts): return ("tup", tuple(ts))
 
@@ -55,6 +58,13 @@ TARGETS = [
          types={"label": STR, "labels": DICT}),
     dict(name="relabel_var", file="pyrates/frontend/template/circuit.py", cls="CircuitTemplate", func="_relabel_var",
          types={"var": STR, "var_map": SDICT}),
+    # specialised to the LIST branch: idx : list[int], so `type(idx) is tuple` / `type(idx) is str` fold to False and their bodies
+    # are not translated (if the guards change, the bodies are translated and the translation fails closed); var_length : int
+    # (None behaves like any negative number: it never equals a length); idx_str : str with "" for None (only its truth value is
+    # used); `arg_dict[idx_str] = {...}` is recorded as the pair (idx_str, idx) appended to arg_dict, which is returned as state
+    dict(name="get_indexed_var_str", file="pyrates/ir/circuit.py", cls=None, func="_get_indexed_var_str",
+         types={"var": STR, "idx": LIST(Z), "var_length": Z, "reduce": BOOL, "idx_str": STR, "arg_dict": ADICT}, state=["arg_dict"],
+         dict_effect=dict(var="arg_dict", value="value", rest={"vtype": "'constant'", "dtype": "'int'", "shape": "(len(idx),)"})),
     dict(name="replace", file="pyrates/backend/parser.py", cls=None, func="replace",
          types={"eq": STR, "term": STR, "replacement": STR, "rhs_only": BOOL, "lhs_only": BOOL}, fuel="(S (S (String.length eq)))"),
 ]
@@ -147,8 +157,16 @@ class Tr:
             a, ta = self.ex(e.operand)
             if isinstance(e.op, ast.USub) and ta == Z: return f"(- {a})%Z", Z
             if isinstance(e.op, ast.Not) and ta == BOOL: return f"(negb {a})", BOOL
+        if isinstance(e, ast.Compare) and len(e.ops) == 1 and isinstance(e.ops[0], ast.Is) and isinstance(e.left, ast.Call) \
+                and isinstance(e.left.func, ast.Name) and e.left.func.id == "type" and len(e.left.args) == 1 and nm(e.left.args[0]) in self.env \
+                and isinstance(e.comparators[0], ast.Name) and e.comparators[0].id in ("tuple", "str", "list", "int", "bool", "dict"):
+            # `type(x) is T` is decided by the declared type of x (the target is specialised to that type)
+            t = self.env[nm(e.left.args[0])]
+            py = {"Z": "int", "string": "str", "bool": "bool", "list": "list", "tup": "tuple", "dict": "dict", "sdict": "dict"}.get(t[0], "?")
+            return ("true" if py == e.comparators[0].id else "false"), BOOL
         if isinstance(e, ast.BoolOp):
             a0, t0 = self.ex(e.values[0])
+            if a0 == ("false" if isinstance(e.op, ast.And) else "true"): return a0, BOOL       # statically short-circuited
             rest = [self.scoped(v) for v in e.values[1:]]
             if t0 != BOOL or any(t != BOOL for _, t, _ in rest): raise Unsupported("and/or on non-bool operands")
             conj = isinstance(e.op, ast.And)
@@ -178,8 +196,8 @@ class Tr:
             for v in e.values:
                 if isinstance(v, ast.FormattedValue) and v.conversion == -1 and v.format_spec is None:
                     a, ta = self.ex(v.value)
-                    if ta not in (STR, Z): raise Unsupported("f-string piece of type " + ty(ta))
-                    out.append(a if ta == STR else f"(py_str_Z {a})")
+                    if ta not in (STR, Z) and ta != LIST(Z): raise Unsupported("f-string piece of type " + ty(ta))
+                    out.append(a if ta == STR else f"(py_str_Z {a})" if ta == Z else f"(py_str_list_Z {a})")
                 else: out.append(self.ex(v)[0])
             return "(" + " ++ ".join(out or ['""']) + ")%string", STR
         if isinstance(e, ast.Subscript):
@@ -215,6 +233,17 @@ class Tr:
             a, ta = self.ex(e.args[0])
             if ta[0] == "list": return f"(Z.of_nat (List.length {a}))", Z
             if ta == STR: return f"(Z.of_nat (String.length {a}))", Z
+        if isinstance(e, ast.Call) and isinstance(e.func, ast.Name) and e.func.id == "list" and len(e.args) == 1 and not e.keywords:
+            a, ta = self.ex(e.args[0])
+            if ta[0] == "list": return a, ta                                  # list(<fresh list>) is a copy of an immutable model value
+        if isinstance(e, ast.Call) and not e.keywords and len(e.args) == 2 and (
+                (isinstance(e.func, ast.Name) and e.func.id == "range") or
+                (isinstance(e.func, ast.Attribute) and e.func.attr == "arange" and nm(e.func.value) == "np")):
+            (a, ta), (b, tb) = self.ex(e.args[0]), self.ex(e.args[1])
+            if ta == Z and tb == Z: return f"(py_range {a} {b})", LIST(Z)
+        if isinstance(e, ast.Call) and isinstance(e.func, ast.Name) and e.func.id == "zip" and len(e.args) == 2 and not e.keywords:
+            (a, ta), (b, tb) = self.ex(e.args[0]), self.ex(e.args[1])
+            if ta[0] == "list" and tb[0] == "list": return f"(combine {a} {b})", LIST(TUP(ta[1], tb[1]))
         if isinstance(e, ast.Call) and isinstance(e.func, ast.Attribute) and e.func.attr == "find" and len(e.args) == 1 and not e.keywords:
             (a, ta), (b, tb) = self.ex(e.func.value), self.ex(e.args[0])
             if ta == STR and tb == STR: return f"(py_find {a} {b})", Z
@@ -272,6 +301,15 @@ class Tr:
         if isinstance(s, ast.AugAssign) and nm(s.target):
             a, _, wrap = self.sx(ast.BinOp(left=s.target, op=s.op, right=s.value))
             return wrap(f"let {nm(s.target)} := {a} in\n{go()}")
+        de = self.cfg.get("dict_effect")
+        if de and isinstance(s, ast.Assign) and len(s.targets) == 1 and isinstance(s.targets[0], ast.Subscript) and nm(s.targets[0].value) == de["var"] \
+                and isinstance(s.value, ast.Dict):
+            ent = {kk.value: vv for kk, vv in zip(s.value.keys, s.value.values) if isinstance(kk, ast.Constant)}
+            if set(ent) != set(de["rest"]) | {de["value"]} or any(ast.unparse(ent[kk]) != src for kk, src in de["rest"].items()):
+                raise Unsupported("the recorded dict literal no longer has the expected entries")
+            a, tk, wrap = self.sx(s.targets[0].slice, ent[de["value"]])
+            if tk != STR: raise Unsupported("dict key of type " + ty(tk))
+            return wrap(f"let {de['var']} := ({de['var']} ++ [({a[0]}, {a[1]})])%list in\n{go()}")
         if isinstance(s, (ast.Assign, ast.AugAssign)) and isinstance(getattr(s, "target", None) or s.targets[0], ast.Subscript):
             tg = s.target if isinstance(s, ast.AugAssign) else s.targets[0]
             d = nm(tg.value)
@@ -288,11 +326,16 @@ class Tr:
             return wrap(f"let {l} := ({l} ++ [{a}])%list in\n{go()}")
         if isinstance(s, ast.If):
             c, tc, wrap = self.sx(s.test)
+            if tc == STR: c, tc = f'(negb (String.eqb {c} ""%string))', BOOL          # `if s:` on a str
             if tc != BOOL: raise Unsupported("truthiness of a non-bool")
+            if c in ("false", "true"):                                                 # statically decided: the dead branch is not translated
+                return self.block(list(s.body if c == "true" else s.orelse) + rest, k, in_loop)
             env0 = dict(self.env)
             th = self.block(list(s.body) + rest, k, in_loop); self.env = dict(env0)
             el = self.block(list(s.orelse) + rest, k, in_loop); self.env = env0
             return wrap(f"if {c} then (\n{th})\nelse (\n{el})")
+        if isinstance(s, ast.Break) and in_loop == "for-with-break":
+            return f"let brk__ := true in\n{k()}"                                      # the rest of this iteration and all later ones are skipped
         if isinstance(s, (ast.For, ast.While)) and not s.orelse:
             return self.loop(s, go)
         raise Unsupported("statement " + ast.dump(s)[:120])
@@ -306,20 +349,33 @@ class Tr:
                     and isinstance(s.target, ast.Tuple) and len(s.target.elts) == 2 and all(isinstance(x, ast.Name) for x in s.target.elts):
                 xs, txs, wrap = self.sx(it.args[0]); pat = [x.id for x in s.target.elts]
                 xs, elt = f"(py_enumerate {xs})", TUP(Z, txs[1] if txs[0] == "list" else None)
+            elif isinstance(s.target, ast.Tuple) and len(s.target.elts) == 2 and all(isinstance(x, ast.Name) for x in s.target.elts):
+                xs, txs, wrap = self.sx(it); pat = [x.id for x in s.target.elts]
+                if txs[0] != "list" or not txs[1] or txs[1][0] != "tup" or len(txs[1][1]) != 2: raise Unsupported("for a, b over a non-pair list")
+                elt = txs[1]
             elif isinstance(s.target, ast.Name):
                 xs, txs, wrap = self.sx(it); pat, elt = [s.target.id], txs[1] if txs[0] == "list" else None
             else: raise Unsupported("for-loop shape")
             if txs[0] != "list" or set(pat) & set(env0): raise Unsupported("for over a non-list / loop variable shadows a live variable")
             if used([it]) & set(carried): raise Unsupported("loop body mutates the sequence it iterates over")
             frees = sorted((used(s.body) & set(env0)) - set(carried))
+            brk = any(isinstance(n, ast.Break) for st in s.body for n in ast.walk(st))
+            if brk:                                     # `break`: a flag carried through the fold; once set, iterations are no-ops
+                if "brk__" in env0 or any(isinstance(n, (ast.For, ast.While)) for st in s.body for n in ast.walk(st)):
+                    raise Unsupported("break in a nested loop")
+                carried = carried + ["brk__"]; env0["brk__"] = BOOL; self.env["brk__"] = BOOL
             for v, t in zip(pat, elt[1] if len(pat) == 2 else [elt]): self.env[v] = t
             tot, self.total_ctx = self.total_ctx, True
-            body = self.block(list(s.body), lambda: self.tup(carried), True)
+            body = self.block(list(s.body), lambda: self.tup(carried), "for-with-break" if brk else True)
+            if brk: body = f"if brk__ then st else (\n{body})"
             self.total_ctx = tot
             self.aux.append(f"Definition {name}{self.binders(frees, [elt])} (st : {ty(TUP(*[env0[v] for v in carried]))}) (x__ : {ty(elt)}) :=\n"
                             f"let '{self.tup(carried)} := st in let '{self.tup(pat)} := x__ in\n{body}.")
             self.env = env0
-            return wrap(f"let '{self.tup(carried)} := fold_left ({name} {' '.join(frees)}) {xs} {self.tup(carried)} in\n{go()}")
+            pre = "let brk__ := false in\n" if brk else ""
+            out = wrap(f"{pre}let '{self.tup(carried)} := fold_left ({name} {' '.join(frees)}) {xs} {self.tup(carried)} in\n{go()}")
+            self.env.pop("brk__", None)
+            return out
         self.need_partial("while")
         if "fuel" not in self.cfg: raise Unsupported("while loop without a fuel expression in TARGETS")
         frees = sorted((used(s.body + [s.test]) & set(env0)) - set(carried))
